@@ -61,6 +61,14 @@ def _class_job(args):
     e = (-60, 60)[(m + n) % 2]
     rec.eqint(t, "RankScaleInvariant", int(u.rank(q_from_float(A * 2.0 ** e))), r)
     nullspace_measure(rec, None, detail, A, r)
+    e2 = (-40, 40)[(m + 2 * n + len(str(st["s"]))) % 2]
+    nullspace_measure(rec, None, dict(detail, scaled_by_pow2=e2), A * 2.0 ** e2, r)
+    if m == n:
+        t = rec.new("det(Dieudonne)", "scaled-" + ("singular" if r < n else "regular"), dict(detail, scaled_by_pow2=e2))
+        ds = float(u.det(q_from_float(A * 2.0 ** e2), "Dieudonne"))
+        wants = float(out["detD"]) * 2.0 ** (e2 * n)
+        tops = float(np.prod([max(v, 1) for v in out["svals"]])) * 2.0 ** (e2 * n) if out["svals"] else 1.0
+        rec.units(t, "DieudonneIsProductOfSingularValues", units(abs(ds - wants), tops, 4 * n * n))
     if m == n:
         t = rec.new("det(Dieudonne)", "singular" if r < n else "regular", detail)
         d = float(u.det(Aq.copy(), "Dieudonne"))
